@@ -228,6 +228,28 @@ class IRFlow:
                 site = body.span(t["sp"])
                 g = F.fn_opt(n)
                 xs = t["xs"]
+                if g is not None and g.kind == "Closure" and len(xs) == 2 and "t" in xs[1] \
+                        and body.ty(xs[1]["t"])["k"] == "tuple":
+                    # a closure body called directly (a local closure invoked by name): rust-call ABI, the
+                    # arguments arrive as one tuple whose k-th item is the closure body's parameter k + 2
+                    x = xs[0]
+                    if "t" in x and relevant(body, body.ty(x["t"])["s"]):
+                        self.add(node_of_path(fn, fl.path(x)), ("param", g.q, 1), site)
+                    tup = xs[1]
+                    found = False
+                    if tup["k"] in ("copy", "move") and not tup["p"]:
+                        for d in fl.P.defs.get(tup["l"], []):
+                            if d[0] == "assign" and d[3]["rv"]["k"] == "agg" and d[3]["rv"]["ak"] == "tuple":
+                                found = True
+                                for k, y in enumerate(d[3]["rv"]["xs"]):
+                                    if "t" in y and relevant(body, body.ty(y["t"])["s"]):
+                                        self.add(node_of_path(fn, fl.path(y)), ("param", g.q, k + 2), site)
+                    if not found and relevant(body, body.ty(tup["t"])["s"]):
+                        # the tuple is not built here: its content may be any of the parameters
+                        src = node_of_path(fn, fl.path(tup))
+                        for j in range(2, g.body.argc + 1):
+                            self.add(src, ("param", g.q, j), site)
+                    continue
                 if g is not None:
                     for i, x in enumerate(xs):
                         if "t" in x and relevant(body, body.ty(x["t"])["s"]):
